@@ -222,9 +222,16 @@ def unsupported_use_workload(res, rng):
     # the environment cannot tell how many CPUs there are (os.cpu_count()
     # returns None): whatever the library does then, it must not hand the
     # kernel a buffer for fewer CPUs than the kernel keeps values for
+    # (patched where the library looks it up: its own imported name if it
+    # has one, and os.cpu_count itself)
+    import os as _os
     import ebpfcat.arraymap as am
-    old_cc = am.cpu_count
-    am.cpu_count = lambda: None
+    NONE = object()
+    old_cc = getattr(am, "cpu_count", NONE)
+    old_os = _os.cpu_count
+    if old_cc is not NONE:
+        am.cpu_count = lambda: None
+    _os.cpu_count = lambda: None
     try:
         with kern.session() as sess:
             pm = PerCPUArrayMap()
@@ -245,7 +252,9 @@ def unsupported_use_workload(res, rng):
             res.count("percpu_workloads_without_a_cpu_count")
             absorb(mon, res, "percpu-no-cpu-count")
     finally:
-        am.cpu_count = old_cc
+        _os.cpu_count = old_os
+        if old_cc is not NONE:
+            am.cpu_count = old_cc
 
 
 def format_lookup_workload(res, rng):
